@@ -1,6 +1,7 @@
 #include "movegen.h"
 
 #include "position.h"
+#include "verif_hooks.h"
 
 namespace engine
 {
@@ -449,6 +450,7 @@ Move* generate_legal_moves(const Position& pos, Move* list)
     Bitboard pinned = 0ULL;
     Pin* pins_start = PINS;
     Pin* pins_end = generate_pins<side>(pos, pins_start, &pinned);
+    VERIF_BOUND(pins_end - pins_start, MAX_PINS + 1, "movegen.cpp:PINS");
 
     Bitboard not_pinned_pawns = pos.pieces(side, PAWN) & ~pinned;
     list = generate_pawn_moves<side>(not_pinned_pawns, ~pos.pieces(), push_mask,
@@ -624,6 +626,7 @@ uint64_t perft(Position& position, int depth)
 {
     if (depth == 0) return 1;
 
+    VERIF_BOUND(depth, 4 * MAX_DEPTH, "movegen.cpp:MOVE_LIST(perft)");
     Move* begin = MOVE_LIST[depth];
     Move* end = generate_moves(position, position.color(), begin);
 
